@@ -1065,7 +1065,8 @@ impl Operator for RdfInsertPatternOperator {
         let mut triples_to_insert = Vec::new();
 
         while let Some(chunk) = self.input.next()? {
-            for row in 0..chunk.row_count() {
+            // Only the rows a filter below left selected
+            for row in chunk.selected_indices() {
                 let subject = self.resolve_component(&self.subject, &chunk, row);
                 let predicate = self.resolve_component(&self.predicate, &chunk, row);
                 let object = self.resolve_component(&self.object, &chunk, row);
@@ -1263,7 +1264,8 @@ impl Operator for RdfDeletePatternOperator {
         let mut triples_to_delete = Vec::new();
 
         while let Some(chunk) = self.input.next()? {
-            for row in 0..chunk.row_count() {
+            // Only the rows a filter below left selected
+            for row in chunk.selected_indices() {
                 let subject = self.resolve_component(&self.subject, &chunk, row);
                 let predicate = self.resolve_component(&self.predicate, &chunk, row);
                 let object = self.resolve_component(&self.object, &chunk, row);
@@ -1491,7 +1493,8 @@ impl Operator for RdfModifyOperator {
         // Step 1: Collect all bindings from WHERE clause (before any modifications)
         let mut bindings: Vec<(DataChunk, usize)> = Vec::new();
         while let Some(chunk) = self.input.next()? {
-            for row in 0..chunk.row_count() {
+            // Only the rows a filter below left selected
+            for row in chunk.selected_indices() {
                 bindings.push((chunk.clone(), row));
             }
         }
